@@ -109,6 +109,9 @@ def _run_blocks(cmd, sources, timeout):
         res += blocks
         if len(blocks) == len(part):
             break
+        if blocks and blocks[-1] == "TIMEOUT\n" and rc == 0:
+            start += len(blocks)      # the hook's watchdog reported the case and ended the process: resume after it
+            continue
         res.append(f"DIED {rc}\n")
         start += len(blocks) + 1
     return res
@@ -120,7 +123,7 @@ def batch(side, mode, sources, timeout=600):
         return []
     if side == "impl":
         flag = {"tok": "--verif-tokens", "ast": "--verif-ast", "astexpr": "--verif-ast-expr"}[mode]
-        cmd = [str(SEED_BIN), flag]
+        cmd = [str(SEED_BIN), flag, str(CASE_LIMIT_MS)]
     else:
         cmd = [str(MODEL_BIN), mode]
     parts = _chunks(list(sources), NPROC)
